@@ -164,6 +164,8 @@ def _resized_crop(args, kwargs, st, eng):
 def _pad(args, kwargs, st, eng):
     im = _img(eng, _arg(args, kwargs, 0, "img"), st)
     p = eng.deref(_arg(args, kwargs, 1, "padding"), st)
+    if isinstance(p, VOpt):
+        p = eng.deref(eng.unopt(p, st, getattr(eng, "cur_call_node", None), "padding"), st)
     ps = p.elems if isinstance(p, VTuple) else (eng.as_seq(p, st).concrete if isinstance(p, (VSeq,)) or isinstance(p, VRef) else [p])
     ts = [_e.to_int(eng.deref(x, st)) for x in ps]
     if len(ts) == 1:
